@@ -646,3 +646,44 @@ Qed.
 
 Lemma ktimes0 : ktimes rstore0.
 Proof. intros k []. Qed.
+
+(** ** for every state reached from the empty store (any flags), and every later suffix of writes (any flags) *)
+Lemma reach_facts fl dm ops :
+  let rs := rrun fl dm ops rstore0 in
+  ds_sorted (s_ds (rs_st rs)) /\ NoDup (rs_keys rs) /\ etimes (rs_st rs) /\ ktimes rs.
+Proof.
+  cbv zeta. split; [|split; [|split]].
+  - rewrite rrun_st. apply (lookup_stable fl dm ops store0 0 0 ScAll ds_sorted0). cbn. lia.
+  - apply (keys_stable fl dm ops rstore0 0); [cbn; lia | constructor].
+  - rewrite rrun_st. apply run_wops_etimes, etimes0.
+  - apply rrun_ktimes, ktimes0.
+Qed.
+
+Theorem C06_entity_thm fl dm ops fl' dm' later id t sc :
+  let rs := rrun fl dm ops rstore0 in
+  t <= s_clock (rs_st rs) ->
+  lookup_at (rs_st (rrun fl' dm' later rs)) id t sc = lookup_at (rs_st rs) id t sc.
+Proof. cbv zeta. intros Ht. apply entity_pinned; [apply reach_facts | exact Ht]. Qed.
+
+Theorem C06_related_thm fl dm ops fl' dm' later q t froms limits fuel :
+  let rs := rrun fl dm ops rstore0 in
+  t <= s_clock (rs_st rs) -> Forall (fun l => 0 <= l) limits -> Forall (fun fr => f_at fr = t) froms ->
+  follow q (rs_keys (rrun fl' dm' later rs)) froms limits 0 fuel = follow q (rs_keys rs) froms limits 0 fuel.
+Proof. cbv zeta. intros Ht Hl Hf. apply (related_pinned fl' dm' later _ q t); try assumption. apply reach_facts. Qed.
+
+Theorem C06_body_thm fl dm ops fl' dm' later fr k :
+  let rs := rrun fl dm ops rstore0 in
+  f_at fr <= s_clock (rs_st rs) ->
+  body_of false (rs_st (rrun fl' dm' later rs)) fr k = body_of false (rs_st rs) fr k.
+Proof. cbv zeta. intros Ht. apply body_pinned; [apply reach_facts | exact Ht]. Qed.
+
+Theorem C06_now_then_entity_thm fl dm ops id a sc :
+  let rs := rrun fl dm ops rstore0 in
+  s_clock (rs_st rs) <= a -> lookup_at (rs_st rs) id a sc = lookup_at (rs_st rs) id (s_clock (rs_st rs)) sc.
+Proof. cbv zeta. intros Ha. apply lookup_now_then; [apply reach_facts | exact Ha]. Qed.
+
+Theorem C06_now_then_related_thm fl dm ops q fr limit a :
+  let rs := rrun fl dm ops rstore0 in
+  s_clock (rs_st rs) <= a ->
+  fst (related q (rs_keys rs) (with_at fr a) limit) = fst (related q (rs_keys rs) (with_at fr (s_clock (rs_st rs))) limit).
+Proof. cbv zeta. intros Ha. apply related_now_then; [apply reach_facts | exact Ha]. Qed.
